@@ -7,19 +7,23 @@ MANIFEST = dict(
     text="Lean 4 theorems over an executable model of http_range_parse_next/parse/coalesce_unsorted, "
          "http_range_single/multi over chunk *byte lists*, the preconditions of http_range_rfc7233, "
          "http_etag_matches, http_response_handle_cachable and the three HTTP-date parsers + IMF-fixdate "
-         "formatter.  Proved over the model: parser = RFC 9110 14.1.2 meaning of every grammatical range-spec with "
+         "formatter; plus a pointer-level model of the do-while walk of http_range_parse over ONE NUL-terminated string "
+         "(parse_next on the whole remainder, the ','/NUL test, the skip-to-',' loop, *s++ and n<lim) proved equal to the "
+         "','-split model for every header text and length (c15_pointer_walk_refines, c15_parse_next_stops_at_comma, "
+         "c15_parse_next_returns_suffix, c15_process_pointer_walk).  Proved over the model: parser = RFC 9110 14.1.2 meaning of every grammatical range-spec with "
          "digit strings of any magnitude (c15_spec_is_rfc); every part carries the declared bytes, multipart framing "
          "and Content-Length (c15_parts_exact, any header/layout); satisfiable ranges covered for <=10 specs in any "
          "order, <=128 ascending, and for an ascending prefix of any longer list; 416 only-if (any header) / iff "
          "(grammatical); ignore cases; 304 iff (Last-Modified = rendered mtime) with the ETag-list comparison "
          "(listed tags without ',' SP HTAB); IMF/asctime date round trip for years 1000..9999 through a proved "
          "civil-date bijection (RFC 850: partial, current-century window).  Tested only (correspondence, not proof): "
-         "FILE_CHUNK bodies and the file.length/offset arithmetic of http_range_single, equality of the ','-split "
-         "model with the pointer walk, libc strtoll/gmtime_r/timegm/strftime, opaque tags containing ','.  Outside: "
+         "FILE_CHUNK bodies and the file.length/offset arithmetic of http_range_single, the C text of parse_next / the "
+         "loop body vs parseNext/parseStep/walk (streams pnext, walk, parse; ranges[] array slots are a list in the model), libc strtoll/gmtime_r/timegm/strftime, opaque tags containing ','.  Outside: "
          "response.c gating (range_requests option, callers of rfc7233/handle_cachable, 416 error body), ETag/"
          "Last-Modified generation, HTTP/2 and end-to-end observation",
     note="trusted: Lean kernel (+propext, Classical.choice, Quot.sound), hand-written model validated by the "
-         "h_range correspondence (grammar-generated Range headers x lengths x mem/file chunk layouts, validator "
+         "h_range correspondence (grammar-generated Range headers x lengths x mem/file chunk layouts, whole-header "
+         "pointer walks and direct parse_next calls with the returned pointer offset incl. an exhaustive small scope, validator "
          "neighbourhoods, timestamp sweeps incl. libc gmtime/timegm); RMAX, RMAX_UNSORTED, HTTP_DATE_SZ, LLONG_*, "
          "boundary regenerated from the source each run and used by the proofs; partial: RFC 850 years of the next "
          "century (c15_date_roundtrip_rfc850_partial), the 80-byte gap literal and file chunks by correspondence only, "
@@ -138,7 +142,7 @@ def ref_date(s, now):
 # ----------------------------------------------------------------------------
 # independent reference: Range (RFC 9110 14.1, 14.2, 15.3.7, 15.5.17)
 # ----------------------------------------------------------------------------
-SPEC_RE = re.compile(rb"^(?:(\d+)-(\d*)|-(\d+))$")
+SPEC_RE = re.compile(rb"^(?:(\d+)-(\d*)|-(\d+))\Z")   # \Z: "$" would accept a trailing LF
 
 
 def ref_range_specs(h):
@@ -355,6 +359,48 @@ def oracle(line, out):
     return v.split(" [")[0] if v else None
 
 
+def oracle_pnext(t, out):
+    """http_range_parse_next() on the whole remaining header: independent statement (regex + integer
+    arithmetic, not the Lean model) of where the returned pointer may be and which range comes back"""
+    n = int(t[1])
+    h = C.unhx(t[2])
+    m = re.match(r"^(x|(\d+)-(\d+)) (\d+)$", out)
+    if not m:
+        return "pnext: malformed harness output"
+    off = int(m.group(4))
+    comma = h.find(b",")
+    stop = comma if comma >= 0 else len(h)
+    if off > stop:
+        return "http_range_parse_next: returned pointer is past the first ',' / the NUL [offset %d > %d]" % (off, stop)
+    if off < len(h) and h[off:off + 1] in (b" ", b"\t"):
+        return "http_range_parse_next: returned pointer rests on a blank [offset %d]" % off
+    got = None
+    if m.group(1) != "x":
+        got = (int(m.group(2)), int(m.group(3)))
+        if not (0 <= got[0] <= got[1] < n):
+            return "http_range_parse_next: range outside the representation [%d-%d, length %d]" % (got + (n,))
+    piece = h[:stop]
+    if piece[:1] in (b"\n", b"\r", b"\x0b", b"\x0c"):
+        return None                 # strtoll's isspace() skip: outside the grammar, model only
+    g = SPEC_RE.match(piece.strip(b" \t"))
+    if g:
+        if g.group(3) is not None:
+            sp = ("suffix", int(g.group(3)), None)
+        else:
+            sp = ("range", int(g.group(1)), int(g.group(2)) if g.group(2) else None)
+        if sp[0] == "range" and sp[2] is not None and sp[2] < sp[1]:
+            exp = None
+        elif sp[0] == "suffix" and sp[1] == 0:
+            return None             # "-0": answered as the (empty-suffix) quirk of the code; model only
+        else:
+            exp = resolve(sp, n)[0]
+        if got != exp:
+            return "http_range_parse_next: grammatical spec resolved differently from RFC 9110 14.1.2 [%r: %r, expected %r]" % (piece, got, exp)
+        if exp is not None and off != stop:
+            return "http_range_parse_next: valid spec but the pointer is not at the ',' / NUL [%r: offset %d]" % (piece, off)
+    return None
+
+
 def oracle_detail(line, out):
     t = line.split(" ")
     op = t[0]
@@ -362,7 +408,9 @@ def oracle_detail(line, out):
         return "harness rejected the op"
     if op == "rng":
         return oracle_rng(t, out)
-    if op == "parse":
+    if op == "pnext":
+        return oracle_pnext(t, out)
+    if op in ("parse", "walk"):
         n = int(t[1])
         o = out.split(" ")
         prs = [tuple(int(x) for x in re.match(r"^(-?\d+)-(-?\d+)$", p).groups()) for p in o[1:]]
@@ -479,6 +527,16 @@ def classify(line, out):
         return "rng:%s:%s:%s:%s:m%s:v%s" % (o[0], multi if o[0] == "206" else "-", kinds, min(nch, 3), t[1], t[2])
     if op == "parse":
         return "parse:n%s" % (o[0] if int(o[0]) < 4 else "4+")
+    if op == "walk":
+        h = C.unhx(t[2])
+        k = h.count(b",") + 1
+        return "walk:n%s:p%s" % (o[0] if int(o[0]) < 4 else ("4+" if int(o[0]) < 11 else "11+"),
+                                 k if k < 4 else ("4-10" if k <= 10 else ("11-128" if k <= 128 else "129+")))
+    if op == "pnext":
+        h = C.unhx(t[2])
+        off = int(o[1])
+        at = "nul" if off == len(h) else ("comma" if h[off:off + 1] == b"," else "junk")
+        return "pnext:%s:%s" % ("x" if o[0] == "x" else "r", at)
     if op == "etag":
         return "etag:%s:w%s" % (out, t[1])
     if op == "cond":
@@ -740,6 +798,79 @@ def gen_parse(ctx, count):
     return lines
 
 
+JUNK_PIECES = [b"", b" ", b"\t", b"x", b"1-2-3", b"1 2", b"1-2 3", b"9-1", b"-", b"--1", b"+1-2", b"1-+2", b"1- 2",
+               b"1 -2", b"1\t-\t2", b"\n1-2", b"\x0b-1", b"1-2\n", b"0x1-2", b"1-2;", b"a", b"-a", b"1-a", b"1a-2",
+               b" 1-2 x", b"-0", b"00", b"0", b"18446744073709551616-", b"-9223372036854775808", b"1-\r2"]
+
+
+def gen_walk(ctx, count):
+    """whole headers for the pointer walk of http_range_parse() and single calls of
+    http_range_parse_next() on a whole remaining header (so that strtoll and the blank loops see the
+    text after the ',' too): grammar-generated lists with junk/empty pieces spliced in, long lists
+    around RMAX (128) and RMAX_UNSORTED (10), raw junk, and an exhaustive small scope"""
+    rng = ctx.rng
+    walk, pnext = [], []
+    big = [1, 2, 100, 2 ** 31, 2 ** 40, I63 - 2, I63 - 1]
+    for i in range(count):
+        n = rng.choice(big) if rng.random() < 0.3 else rng.randint(1, 400)
+        r = rng.random()
+        if r < 0.35:
+            h = range_header(rng, n)
+            body = h[6:] if h[:6].lower() == b"bytes=" else h
+            kind = "grammar"
+        elif r < 0.55:
+            body = spaced_header(rng, n)[6:]
+            kind = "spaced"
+        elif r < 0.8:
+            # grammatical pieces with junk / empty pieces spliced in
+            k = rng.choice([1, 2, 3, 5, 9, 10, 11, 12, 15])
+            ps = [spec(rng, n)[0].encode("latin-1") if rng.random() < 0.65 else rng.choice(JUNK_PIECES)
+                  for _ in range(k)]
+            body = b",".join(ps)
+            kind = "spliced"
+        elif r < 0.9:
+            # long lists: ascending far-apart ranges up to and past RMAX, sometimes one out of order
+            k = rng.choice([9, 10, 11, 12, 20, 127, 128, 129, 130, 140])
+            nn = max(n, 200 * k) if rng.random() < 0.8 else n
+            n = nn
+            ps = [b"%d-%d" % (100 * j, 100 * j + rng.choice([0, 5, 18, 19, 20])) for j in range(k)]
+            q = rng.random()
+            if q < 0.4:
+                i1 = rng.randrange(k)
+                ps.insert(i1, rng.choice([b"0-0", b"50-60", b"x", b"", b"%d-" % (100 * k)]))
+            elif q < 0.6:
+                j1 = rng.randrange(k); j2 = rng.randrange(k)
+                ps[j1], ps[j2] = ps[j2], ps[j1]
+            body = rng.choice([b",", b", ", b" ,"]).join(ps)
+            kind = "long"
+        else:
+            alpha = b"0123456789--,,  \t\n+xa"
+            body = bytes(rng.choice(alpha) for _ in range(rng.randint(0, 24)))
+            kind = "junk"
+        ctx.dist["walk:" + kind] += 1
+        walk.append("walk %d %s" % (n, hx(body)))
+        if i % 2 == 0:
+            # parse_next at a piece boundary of the same header (what the walk hands it), or anywhere
+            cuts = [0] + [j + 1 for j, c in enumerate(body) if c == 44]
+            at = rng.choice(cuts) if rng.random() < 0.8 else rng.randint(0, len(body))
+            pnext.append("pnext %d %s" % (n, hx(body[at:])))
+            ctx.dist["pnext:from-" + kind] += 1
+    # exhaustive small scope at length 3: every string of length <= L over a 7-letter alphabet
+    alpha = [b"0", b"2", b"-", b",", b" ", b"\t", b"x"]
+    L = 5 if ctx.quick else 6
+    ne = 0
+    for k in range(0, L + 1):
+        for tup in itertools.product(alpha, repeat=k):
+            b = b"".join(tup)
+            walk.append("walk 3 " + hx(b))
+            pnext.append("pnext 3 " + hx(b))
+            ne += 1
+    ctx.dist["walk:exhaustive"] = ne
+    ctx.dist["pnext:exhaustive"] = ne
+    ctx.notes.append("walk/pnext exhaustive: every string of length <= %d over {0,2,-,',',SP,HTAB,x} at len=3" % L)
+    return walk, pnext
+
+
 def etag_pool():
     return [b'"abc"', b'W/"abc"', b'"ab"', b'"abcd"', b'""', b'"a,b"', b'"*"', b'W/""', b'abc', b'"abc', b'W/', b'']
 
@@ -938,6 +1069,23 @@ def run(ctx):
     ctx.differential("range(rfc7233 over chunk queues)", [exe], MODEL, rng_lines, oracle, classify)
     parse_lines = gen_parse(ctx, 120000 if q else 1200000)
     ctx.differential("range(parse/coalesce, large lengths)", [exe], MODEL, parse_lines, oracle, classify)
+    walk_lines, pnext_lines = gen_walk(ctx, 90000 if q else 900000)
+    ctx.differential("range(pointer walk of http_range_parse vs parsePtr)", [exe], MODEL, walk_lines, oracle, classify)
+    ctx.differential("range(http_range_parse_next: range and returned pointer)", [exe], MODEL, pnext_lines, oracle,
+                     classify)
+    # the compiled ','-split model and the compiled pointer-walk model agree on every generated header
+    # (theorem c15_pointer_walk_refines; this run only guards the build of the two executables' code)
+    sub = walk_lines[::7]
+    m1, _, _ = C.run_model(MODEL, sub)
+    m2, _, _ = C.run_model(MODEL, ["parse" + l[4:] for l in sub])
+    ctx.dist["walk:split-vs-pointer-model-compared"] = len(sub)
+    for l, a, b in zip(sub, m1, m2):
+        if a != b:
+            ctx.violation("model(parsePtr) != model(parse)", "pointer-walk model and ','-split model differ "
+                          "(contradicts theorem c15_pointer_walk_refines: stale build?)",
+                          {"property": ctx.pid, "kind": "correspondence", "input": l, "impl_obs": a,
+                           "model_obs": b}, found=True)
+            break
     etag_lines = gen_etag(ctx, 120000 if q else 1000000)
     ctx.differential("etag(http_etag_matches)", [exe], MODEL, etag_lines, oracle, classify)
     cond_lines = gen_cond(ctx, 80000 if q else 800000)
